@@ -19,6 +19,9 @@ CLASS_OF = {'s': 's', 'q': 's', 'y': 's', 'b': 'b', 'i': 'i', 'c': 'c', 'a': 'a'
 BUILTINS = {'werror': ('b', None), 'warning_level': ('c', ['0', '1', '2', '3', 'everything'])}
 WATCH = sorted(set(TOP_NAMES + SUB_NAMES + ['boom', 'late', 'zz'] + list(BUILTINS)))
 STRS = ['v1', 'v2', 'x', 'sd', 'true', '7', 'a', 'b', '']
+# legal but unusual string values: blanks at the ends (lost by cmd_line.txt: known finding), INI /
+# interpolation / comment characters, '=' and ':' inside a value, non-ASCII
+HOSTILE = [' lead', 'trail ', 'a b', 'a%b', '%(s)s', 'x=y', '#c', 'a;b', 'k:v', '\u00e9\u20ac']
 COMBO = ['a', 'b', 'c', 'd']
 ARR = ['x', 'y', 'z']
 FEAT = ['enabled', 'disabled', 'auto']
@@ -112,6 +115,8 @@ def gen_files(rng, prev=None, typechange=0.04):
 def valid_value(rng, d):
     c = d['cls']
     if c == 's':
+        if rng.random() < 0.06:
+            return rng.choice(HOSTILE)
         return rng.choice(STRS)
     if c == 'b':
         return rng.choice(['true', 'false', 'True', 'FALSE'])
@@ -233,13 +238,15 @@ def gen_case(rng, nsteps):
            'calldef': keep(gen_defaults(rng, files, 'sub'), 'sub')}
     steps = [['S', gen_dargs(rng, files, fail=0.03, pvalid=0.95 if rng.random() < 0.9 else 0.5)]]
     cur = files
+    given = [k for k, _ in steps[0][1] if k not in ('boom', 'late')]
     for _ in range(nsteps - 1):
         r = rng.random()
         if r < 0.26:
             args = []
             for _ in range(rng.choice([1, 1, 2, 2, 3])):
                 if rng.random() < 0.3:
-                    args.append([gen_key(rng, cur, True), 'U'])
+                    # sometimes a key that was given earlier (its option may have been removed since)
+                    args.append([rng.choice(given) if given and rng.random() < 0.3 else gen_key(rng, cur, True), 'U'])
                 else:
                     k = gen_key(rng, cur)
                     args.append([k, 'D', gen_value(rng, k, cur)])
@@ -257,6 +264,10 @@ def gen_case(rng, nsteps):
         else:
             cur = gen_files(rng, cur)
             steps.append(['E', cur])
+        if steps[-1][0] in 'SRW':
+            given += [k for k, _ in steps[-1][1] if k not in ('boom', 'late')]
+        elif steps[-1][0] == 'C':
+            given += [a[0] for a in steps[-1][1] if a[1] == 'D' and a[0] not in ('boom', 'late')]
     return {'cfg': cfg, 'files': files, 'steps': steps}
 
 
@@ -349,17 +360,27 @@ class Adapter:
             self.p.kill()
 
 
-_tls = threading.local()
-
-
-def adapter():
-    if not getattr(_tls, 'a', None):
-        _tls.a = Adapter()
-        _ALL_ADAPTERS.append(_tls.a)
-    return _tls.a
-
-
+_POOL = []                 # idle adapter processes, shared by all worker threads and all case sets
+_POOL_LOCK = threading.Lock()
 _ALL_ADAPTERS = []
+
+
+class adapter:
+    """with adapter() as ad: borrow an adapter process from the pool (start one if none is idle)"""
+    def __enter__(self):
+        with _POOL_LOCK:
+            self.a = _POOL.pop() if _POOL else None
+        if self.a is None:
+            self.a = Adapter()
+            with _POOL_LOCK:
+                _ALL_ADAPTERS.append(self.a)
+        return self.a
+
+    def __exit__(self, et, ev, tb):
+        if et is None:
+            with _POOL_LOCK:
+                _POOL.append(self.a)
+        return False
 
 
 def step_argv(step, bd, src):
@@ -373,9 +394,20 @@ def step_argv(step, bd, src):
 MSG = re.compile(r'Message: OPT~(\w+)~(\w+)~(.*)$', re.M)
 
 
+def meson_forked(ad, argv):
+    """one meson command in a child forked from the warmed-up adapter process (see impl/c08.py)"""
+    r = ad.ask({'op': 'run', 'argv': argv, 'env': {'NINJA': os.path.join(VERIF, 'tools', 'fakeninja')}})
+    if 'error' in r:
+        raise HarnessError('forked meson runner failed: %s' % r['error'])
+    return r['rc'], r['out']
+
+
 def run_history(arg):
-    """-> list of raw observations, one per step (Edit steps included)."""
-    root, case, cli_every = arg
+    """-> list of raw observations, one per step (Edit steps included).
+    mode 'cli': every command is `python meson.py ...` in a subprocess;
+    mode 'fork': every command runs in a fresh child forked from the adapter process."""
+    root, case, cli_every = arg[:3]
+    mode = arg[3] if len(arg) > 3 else 'cli'
     src, bd = os.path.join(root, 'src'), os.path.join(root, 'bd')
     os.makedirs(bd, exist_ok=True)
     files = case['files']
@@ -391,7 +423,14 @@ def run_history(arg):
     note(files)
     write_tree(src, case['cfg'], files)
     obs = []
-    ad = adapter()
+    with adapter() as ad:
+        obs = _run_steps(ad, case, files, src, bd, mode, cli_every, note, unstable)
+    shutil.rmtree(root, ignore_errors=True)
+    return obs
+
+
+def _run_steps(ad, case, files, src, bd, mode, cli_every, note, unstable):
+    obs = []
     for si, step in enumerate(case['steps']):
         o = {}
         if step[0] == 'E':
@@ -401,20 +440,27 @@ def run_history(arg):
             o['rc'] = 0
             o['out'] = ''
         else:
-            r = meson_cli(step_argv(step, bd, src), timeout=300)
-            o['rc'] = r.returncode
-            o['out'] = r.stdout[-6000:] + r.stderr[-1500:]
+            if mode == 'fork':
+                o['rc'], o['out'] = meson_forked(ad, step_argv(step, bd, src))
+                o['out'] = o['out'][-8000:]
+            else:
+                r = meson_cli(step_argv(step, bd, src), timeout=300)
+                o['rc'] = r.returncode
+                o['out'] = r.stdout[-6000:] + r.stderr[-1500:]
         o['state'] = ad.ask({'op': 'dump', 'bd': bd, 'watch': WATCH})
         if cli_every or si == len(case['steps']) - 1:
-            r2 = meson_cli(['introspect', '--buildoptions', bd], timeout=120)
-            o['cli_rc'] = r2.returncode
+            if mode == 'fork':
+                rc2, out2 = meson_forked(ad, ['introspect', '--buildoptions', bd])
+            else:
+                r2 = meson_cli(['introspect', '--buildoptions', bd], timeout=120)
+                rc2, out2 = r2.returncode, r2.stdout
+            o['cli_rc'] = rc2
             try:
                 o['cli'] = {e['name']: {'value': e['value'], 'type': e['type'], 'choices': e.get('choices')}
-                            for e in json.loads(r2.stdout) if e['name'].split(':')[-1] in WATCH} if r2.returncode == 0 else None
+                            for e in json.loads(out2) if e['name'].split(':')[-1] in WATCH} if rc2 == 0 else None
             except ValueError:
                 o['cli'] = 'unparsable'
         obs.append(o)
-    shutil.rmtree(root, ignore_errors=True)
     return obs
 
 
@@ -631,7 +677,8 @@ def corpus():
         ['S', [['y', 'user']]], ['E', no_y], ['C', [D('werror', 'true')]], ['C', [D('sub:y', 'own')]], ['C', [U('sub:y')]], ['R', []]]})
     # removed options that are recorded in cmd_line.txt (known finding)
     H.append({'cfg': cfg0, 'files': base, 'steps': [
-        ['S', [['s', '1'], ['sub:q', '2'], ['sub:i', '9']]], ['E', no_s_q], ['C', [D('c', 'b')]], ['R', []], ['C', [U('sub:q')]], ['W', []]]})
+        ['S', [['s', '1'], ['sub:q', '2'], ['sub:i', '9']]], ['E', no_s_q], ['C', [D('c', 'b')]], ['R', []], ['C', [U('sub:q')]], ['W', []],
+        ['R', [['c', 'c']]], ['C', [U('s'), D('c', 'a')]], ['W', []]]})
     # a reconfigure that changes something and then fails in the unknown-option check
     # (after coredata.dat was dumped) must restore coredata.dat
     H.append({'cfg': cfg0, 'files': base, 'steps': [
@@ -667,6 +714,10 @@ def corpus():
     H.append({'cfg': cfg0, 'files': ifiles(10, 0, 10), 'steps': [
         ['S', [['i', '8'], ['sub:i', '4']]], ['E', ifiles(5, 0, 6)], ['R', []], ['E', ifiles(50, -5, 6)],
         ['C', [D('i', '40'), D('sub:i', '-2')]], ['E', ifiles(50, -5, 20)], ['R', []], ['R', [['sub:i', '15']]]]})
+    # unusual string values through setup / configure / reconfigure / wipe
+    H.append({'cfg': cfg0, 'files': base, 'steps': [
+        ['S', [['s', 'a%b'], ['sub:q', 'x=y']]], ['C', [D('s', '%(y)s'), D('y', 'k:v')]], ['R', [['sub:q', '#c;d']]], ['W', []],
+        ['C', [D('s', ' lead'), D('sub:q', 'a b')]], ['R', []], ['W', []]]})
     # duplicates on one command line, -D then -U of the same key
     H.append({'cfg': cfg0, 'files': base, 'steps': [
         ['S', [['s', '1'], ['s', '2']]], ['C', [D('sub:werror', 'true'), U('sub:werror')]], ['C', [U('sub:werror'), D('sub:werror', 'true')]],
@@ -674,27 +725,23 @@ def corpus():
     return H
 
 
-def small_alphabet(thorough):
+def small_alphabet():
     c3 = ['a', 'b', 'c']
     A = F([mk('s', 's', 'sd'), mk('c', 'c', 'a', choices=c3)], [mk('c', 'c', 'b', choices=c3, **{'yield': True}), mk('q', 's', 'qd')])
     B = F([mk('c', 'c', 'b', choices=['b', 'c', 'd'])], [mk('c', 'c', 'b', choices=['b', 'c'], **{'yield': True}), mk('i', 'i', 2, min=0, max=4)])
     alpha = [['S', [['s', '1']]], ['C', [D('sub:c', 'c')]], ['C', [U('sub:c')]], ['C', [D('c', 'c'), D('sub:werror', 'true')]],
-             ['R', []], ['R', [['boom', 'true'], ['c', 'b']]], ['W', []], ['E', B], ['E', A]]
-    if not thorough:
-        alpha = [alpha[i] for i in (1, 2, 4, 6, 7)]
+             ['R', []], ['R', [['boom', 'true'], ['c', 'b']]], ['W', []], ['E', B], ['E', A], ['C', [U('s')]]]
     return A, alpha
 
 
 def enumerate_small(thorough):
-    A, alpha = small_alphabet(thorough)
+    """all histories "setup -Dc=c; x1..xk" with k <= 2 (quick) / k <= 3 (thorough) over the alphabet"""
+    A, alpha = small_alphabet()
     cfg = {'topdef': [], 'subdef': [['c', 'c']], 'calldef': []}
-    n = 3 if thorough else 2
     out = []
-    for k in range(1, n + 1):
+    for k in range(1, (3 if thorough else 2) + 1):
         for seq in itertools.product(alpha, repeat=k):
-            if k < n and not thorough:
-                continue
-            out.append({'cfg': cfg, 'files': A, 'steps': [['S', [['c', 'c']]]] + [list(s) for s in seq]})
+            out.append({'cfg': cfg, 'files': A, 'steps': [['S', [['c', 'c'], ['s', 'x']]]] + [list(s) for s in seq]})
     return out
 
 
@@ -704,11 +751,11 @@ def classify(case):
     return tags
 
 
-def evaluate(ctx, cases, built, cli_every, label):
+def evaluate(ctx, cases, built, cli_every, label, mode='cli'):
     """run implementation + model on the cases, record disagreements, return per-case
     (canonical implementation observations, raw observations)."""
     base = ctx.mkscratch()
-    jobs = [(os.path.join(base, '%s%05d' % (label, i)), c, cli_every) for i, c in enumerate(cases)]
+    jobs = [(os.path.join(base, '%s%05d' % (label, i)), c, cli_every, mode) for i, c in enumerate(cases)]
     raw = pmap(run_history, jobs)
     wire = [enc_case(c) for c in cases]
     model = ctx.run_model(wire) if built else [None] * len(cases)
@@ -736,7 +783,11 @@ def evaluate(ctx, cases, built, cli_every, label):
 
 
 def oracle(ctx, cases, results, label):
-    ad = adapter()
+    with adapter() as ad:
+        return _oracle(ctx, cases, results, label, ad)
+
+
+def _oracle(ctx, cases, results, label, ad):
     nfail = 0
     for i, (case, (impl_c, obs)) in enumerate(zip(cases, results)):
         msgs = [[list(m) for m in MSG.findall(o['out'])] for o in obs]
@@ -788,17 +839,22 @@ def run(ctx):
     rng = ctx.rng
     thorough = ctx.tier == 'thorough'
     built = ctx.build('Props/C08.v', 'Options/LcExtract.v', 'C08')
-    sets = []
-    sets.append(('corpus', corpus()))
-    # VERIF_C08_SCALE shrinks the thorough random stream for smoke runs (default 1 = full size)
-    nrand = int(1500 * float(os.environ.get('VERIF_C08_SCALE', '1'))) if thorough else 30
-    sets.append(('random', [gen_case(rng, rng.randint(3, 7)) for _ in range(nrand)]))
-    sets.append(('exhaustive', enumerate_small(thorough)))
+    # Three streams.  'cli': every command is a `python meson.py ...` subprocess (the corpus and a
+    # random sample).  'fork': every command runs in a fresh child forked from a warmed-up process
+    # that calls mesonbuild.mesonmain.run - same code path and process isolation, without the
+    # 0.6 s interpreter start, which buys ~7x more histories per second.
+    scale = float(os.environ.get('VERIF_C08_SCALE', '1'))     # shrinks the thorough streams for smoke runs
+    ncli = int(120 * scale) if thorough else 8
+    nfork = int(3000 * scale) if thorough else 170
+    sets = [('corpus', corpus(), 'cli'),
+            ('random-cli', [gen_case(rng, rng.randint(3, 7)) for _ in range(ncli)], 'cli'),
+            ('random', [gen_case(rng, rng.randint(2, 7)) for _ in range(nfork)], 'fork'),
+            ('exhaustive', enumerate_small(thorough), 'fork')]
     allwire, allmodel = [], []
     dist = {}
     nsteps = 0
-    for label, cases in sets:
-        wire, model, results = evaluate(ctx, cases, built, thorough, label)
+    for label, cases, mode in sets:
+        wire, model, results = evaluate(ctx, cases, built, thorough and mode == 'cli', label, mode)
         allwire += wire
         allmodel += model
         oracle(ctx, cases, results, label)
@@ -811,11 +867,11 @@ def run(ctx):
     for a in _ALL_ADAPTERS:
         a.close()
     ctx.extra['exhaustive'] = True
-    ctx.extra['exhaustive_note'] = ('all histories "setup; x1..xk" with k = %d over an alphabet of %d commands'
-                                    % ((3, 9) if thorough else (2, 5)))
+    ctx.extra['exhaustive_note'] = ('all histories "setup; x1..xk" with k <= %d over an alphabet of 10 commands'
+                                    % (3 if thorough else 2))
     ctx.extra['steps'] = nsteps
     ctx.extra['step_distribution'] = dist      # command kind + success(+)/failure(-)
-    for label, cases in sets[:2]:
+    for label, cases, _ in sets[:3]:
         for c in cases[:2]:
             ctx.sample({'set': label, 'steps': [s if s[0] != 'E' else ['E', '...'] for s in c['steps']], 'cfg': c['cfg']})
     if built and all(m is not None for m in allmodel):
